@@ -121,11 +121,26 @@ def run(tier, seed):
     # ---- (ii) bounded iteration of the data-dependent loops, (iii) their argument ranges established at the call sites.
     # Uninstrumented harnesses (plain CBMC, everything inlined): the obligations are unwinding assertions / call-site assertions.
     tj = []
+    # (ii-b) lgamma: the loop contracts exist (vlib/c14loops.py) but the dfcc-instrumented query does not finish within the quick tier's limits
+    # (attempted in the thorough tier); the iteration bound is discharged as unwinding assertions of plain CBMC on the fully inlined
+    # function instead -- complete for the claim "at most K iterations for every argument in the range", labelled as such in the evidence
     for n in sorted(loopfn):
+        if loopfn[n][1] == "tgamma_other":
+            continue
         if tier == "quick" and loopfn[n][1] != "lgamma_impl<float>::other":
-            rep.bounded.append({"function": fnmap[n]["demangled"][:140], "status": "not run in the quick tier (query needs > 15 min); proved in the thorough tier"})
+            rep.bounded.append({"function": fnmap[n]["demangled"][:140], "status": "not run in the quick tier (query needs > 15 min); run in the thorough tier"})
             continue
         tj.append({"target": n, "out": os.path.join(wd, "L_%s.c" % sha(n)), "keep": []})
+    # (ii) the loop-carrying functions: function contract (argument range) + loop contracts, callees replaced by their contracts (dfcc)
+    # public math functions called after the loops (log, sin, floor, ...) carry no lane-wise contract: they are kept as opaque callees with
+    # the trivial contract "returns some value, writes nothing but its result" -- their own termination is the inventory's business
+    opaque = {n for n, f in fnmap.items() if f.get("defined") and n not in fns and n not in loopfn and
+              (re.match(r"^xsimd::batch<[^()]*> xsimd::(%s)<" % "|".join(MATH_UNARY + MATH_BINARY), f["demangled"]) or
+               # polynomial kernels evaluated after / between the loops (straight-line Horner schemes, dozens of fused multiply-adds)
+               re.search(r"xsimd::kernel::detail::(gammaln\w+<[^()]*>|tgamma_kernel<.*>::compute)\(", f["demangled"]))}
+    lj = [{"target": n, "out": os.path.join(wd, "W_%s.c" % sha(n)), "opts": {"loops_as_while": True}, "keep": sorted(opaque)} for n in sorted(loopfn)
+          if loopfn[n][1] == "tgamma_other" or tier == "thorough"]
+    lres = pipeline.run_ll2c(bc, lj, wd, "c14w", keep_all=keep)
     # the recursion lgamma<double> -> large_negative -> lgamma(|x|) is cut at the public lgamma (stubbed: its own obligations are separate)
     lg_api = [n for n, f in fnmap.items() if f.get("defined") and re.search(r"xsimd::batch<(float|double), [^>]+> xsimd::lgamma<", f["demangled"])]
     for n in sorted(callers):
@@ -160,6 +175,75 @@ def run(tier, seed):
                     out += m2.wf()
         return out
 
+    from . import c14loops
+    for j, r in zip(lj, lres):
+        label = loopfn[j["target"]][1]
+        if not r.get("ok"):
+            rep.infra.append({"fn": label, "detail": "ll2c: " + str(r.get("error"))})
+            continue
+        dem = r["target"]["demangled"]
+        m = re.search(r"xsimd::batch<(float|double), (xsimd::[A-Za-z0-9_<>:]+?)>", dem)
+        aid = [k for k, v in ARCHS.items() if m and v[0] == m.group(2)]
+        if not aid:
+            rep.infra.append({"fn": label, "detail": "cannot determine architecture of " + dem})
+            continue
+        tid, aid = ("f64" if m.group(1) == "double" else "f32"), aid[0]
+        try:
+            ltxt, ghosts, bounds, nspec = c14loops.contracts(label, r, tid, aid)
+            txt = ['#include "spec.h"\n', ltxt]
+            replace = []
+            for c in r["callees"]:
+                cf = fns.get(c["name"])
+                # the fused multiply-adds evaluate polynomials after the loops: their values do not matter for termination (and their
+                # contract is a disjunction of rounding orders that costs an adder per candidate) -> trivial contract as well
+                if (cf is None and c["name"] in opaque) or (cf is not None and cf.op in ("fma", "fms", "fnma", "fnms")):
+                    sr = [p["name"] for p in c["params"] if p["sret"]]
+                    txt.append("#define CONTRACT_%s __CPROVER_requires(1) __CPROVER_ensures(1) __CPROVER_assigns(%s)\n" % (c["name"], ", ".join("*" + x for x in sr)))
+                    replace.append(c["name"])
+                    continue
+                if cf is None:
+                    raise Infra("callee without contract or body: %s" % c["demangled"][:160])
+                cctx = gen.bind(cf, c, r)
+                cf.row.build(cctx)
+                txt.append(gen.contract_text(cctx, c["name"]))
+                replace.append(c["name"])
+            ps = [p for p in r["target"]["params"] if not p["sret"]]
+            req = pre_for(label, ps, r, dem)
+        except (Infra, gen.Unsupported) as e:
+            rep.infra.append({"fn": label, "detail": str(e)})
+            continue
+        sret = [p for p in r["target"]["params"] if p["sret"]]
+        txt.append("#define CONTRACT_%s \\\n" % r["target"]["name"] + "".join("  __CPROVER_requires(%s) \\\n" % q for q in req) +
+                   "  __CPROVER_ensures(1) \\\n  __CPROVER_assigns(%s)\n" % ", ".join(ghosts + ["*%s" % p["name"] for p in sret]))
+        H = ["void harness(void) {", "  ll_use_libm();"]
+        call = []
+        from .sig import leaves
+        for k, p in enumerate(r["target"]["params"]):
+            if p["type"].endswith("*"):
+                H.append("  %s O%d;" % (p["type"][:-1].strip(), k))
+                call.append("&O%d" % k)
+                if not p["sret"]:
+                    for jx, (off, nb, lk, e) in enumerate(leaves(p["type"][:-1].strip(), "O%d" % k, r)):
+                        H.append("  %s IN_%d_%d = %s;" % ({"u": "u%d" % (nb * 8), "f": "f%d" % (nb * 8), "p": "u64"}[lk], k, jx, e))
+            else:
+                H.append("  %s O%d;" % (p["type"], k))
+                call.append("O%d" % k)
+        H += ["  %s = 0;" % g for g in ghosts]
+        H.append("  %s(%s);" % (r["target"]["name"], ", ".join(call)))
+        H.append('  __CPROVER_assert(0, "canary: end of harness is reachable");')
+        H.append("}")
+        nloops = len(r.get("while_loops", []))
+        title = "%s [%s] loop contracts" % (label, dem.split("(")[0][-70:])
+        note = ("%d loops, each with invariant + decreases + ghost iteration counter: iterations bounded by %s for every argument in the stated range; "
+                "callees (%d) replaced by their contracts" % (nloops, bounds, len(replace)))
+        if nloops != nspec:
+            note += "; WARNING: %d loops in the function, %d loop contracts known" % (nloops, nspec)
+
+        def done(rr, title=title, note=note, nloops=nloops, replace=replace):
+            # a loop contract that was silently dropped shows as a missing invariant-step obligation
+            S.add(title, "include/xsimd/arch/generic/xsimd_generic_math.hpp", rr, replaced=replace, note=note)
+        B.add(done, wd, "W_" + sha(j["target"]), j["out"], "".join(txt), "\n".join(H) + "\n", r["target"]["name"], replace=replace, unwind=66,
+              attempts=(("uf", "sat", 900 if tier == "quick" else 3000),), cbmc_flags=["--slice-formula"], loop_contracts=True)
     for j, r in zip(tj, tres):
         if not r.get("ok"):
             rep.infra.append({"fn": j["target"], "detail": "ll2c: " + str(r.get("error"))})
@@ -212,7 +296,7 @@ def run(tier, seed):
         H.append('  __CPROVER_assert(0, "canary: end of harness is reachable");')
         H.append("}")
         title = "%s [%s]" % (label, r["target"]["demangled"].split("(")[0][-70:])
-        note = ("every loop of this function iterates at most %d times for every argument in the stated range (unwinding assertions, all inputs)" % max(66, bound)) if is_loopfn \
+        note = ("every loop of this function iterates at most %d times for every argument in the stated range (unwinding assertions of plain CBMC, all inputs; not a loop contract)" % max(66, bound)) if is_loopfn \
             else "establishes the argument range required by the loop-carrying callee (asserted at the call site)"
         B.add((lambda rr, title=title, note=note: S.add(title, "include/xsimd/arch/generic/xsimd_generic_math.hpp", rr, note=note)),
               wd, ("L_" if is_loopfn else "C_") + sha(j["target"]), j["out"], "", "\n".join(H) + "\n", name, unwind=max(66, bound + 1),
